@@ -167,6 +167,24 @@ func runC08(r *Run) {
 			if !ok {
 				rs.Violation(encode, encode.Pos(), "Encode does not truncate Raw first", "re-encoding appends to or overlays the previous bytes")
 			}
+			// the header is written with Length already reset: only Add rewrites the length field, so with
+			// no attributes a Length left over from the previous use (a failed Decode stores it) would stay
+			var zeroLen ssa.Instruction
+			for _, a := range fieldAccesses(encode, lenF) {
+				if st, isS := a.Instr.(*ssa.Store); isS && a.Kind == "store" {
+					if c, isC := constInt(st.Val); isC && c == 0 {
+						zeroLen = st
+					}
+				}
+			}
+			rs.Instance("Encode|Length reset before the header is written", true, nil)
+			eachInstr(encode, func(b *ssa.BasicBlock, i int, in ssa.Instruction) {
+				if callsFn(in, wh) || (wl != nil && callsFn(in, wl)) {
+					if zeroLen == nil || !instrDominates(zeroLen, in) {
+						rs.Violation(encode, instrPos(in), "header written before Length is reset", "Encode writes the header while Length still holds the value of the previous use; with no attributes to add nothing corrects the length field: a message re-encoded after a failed Decode announces attributes it does not have and cannot be decoded")
+					}
+				}
+			})
 		}
 		checkDecodeReset(r, rs, cl.DecodeM, attrsF)
 	}
